@@ -364,7 +364,8 @@ class HalmosBitVec:
 
         if type_value is HalmosBitVec:
             # avoid reinitializing HalmosBitVec because of __new__ shortcut if same size
-            if size == value.size:
+            # (no size given means the size of the existing object, see __new__)
+            if size is None or size == value.size:
                 return
 
             # otherwise, create a new HalmosBitVec with the new size
